@@ -1,16 +1,32 @@
-(* ops 120-129: the LaTeX wrapper run with the executable stub converters of Model/LatexWrap.v.
+(* ops 120-129: the LaTeX wrapper run with the executable stub converters of Model/LatexWrap.v; the encoder rules.
+   121 keep_math enclose_urls text table -> text    Model/LatexRules.encode; table: ((character . default conversion) ...) as
+       observed on the running pylatexenc for the characters of the text, identity for a character without a row
    120 (kinds blocks) -> (blocks errors)   kinds: list of 0 = stub encoder, 1 = stub decoder, applied in order to
    Library(blocks); errors: per middleware application, per input block, the reasons of its PartialMiddlewareException *)
 From Coq Require Import List NArith ZArith Bool.
-From BP Require Import Base.Chars Base.Sx Model.Blocks Model.LibAdd Run.Codec Model.LatexWrap Run.RunEnclosing.
+From BP Require Import Base.Chars Base.Sx Model.Blocks Model.LibAdd Run.Codec Model.LatexWrap Model.LatexRules Run.RunEnclosing.
 Import ListNotations.
 Local Open Scope Z_scope.
 
 Definition dec_kind (x : sx) : option (str -> str * str) :=
   match x with A 0 => Some stub_enc | A 1 => Some stub_dec | _ => None end.
 
+Definition dec_row (x : sx) : option (ch * str) :=
+  match x with L [c; r] => match as_N c, as_str r with Some c', Some r' => Some (c', r') | _, _ => None end | _ => None end.
+Fixpoint table_get (t : list (ch * str)) (c : ch) : str :=
+  match t with [] => [c] | (k, v) :: r => if ceq k c then v else table_get r c end.
+
 Definition run_latex (op : Z) (args : list sx) : sx :=
-  if op =? 120 then
+  if op =? 121 then
+    match args with
+    | [km; eu; text; table] =>
+        match as_bool km, as_bool eu, as_str text, as_list dec_row table with
+        | Some km', Some eu', Some s, Some t => r_ok (sstr (encode (table_get t) km' eu' s))
+        | _, _, _, _ => sx_err
+        end
+    | _ => sx_err
+    end
+  else if op =? 120 then
     match args with
     | [ks; bs] =>
         match as_list dec_kind ks, dec_blocks bs with
